@@ -1157,11 +1157,11 @@ example : (frun CallerVariant.code oneShotFirst FSt.init
 "The device memory equals the written data" means the data AT THE TIME OF THE CALL.  Model: `refillSt` / `arun`
 (`AEv.refill tag data`: the application overwrites in place, same length, the buffer of `write(tag ..)`). -/
 
-/-- Tie A: the constructor keeps the caller's object (`self._data = data`); every other use of `self._data`:
+/-- Tie A: the constructor keeps a COPY of the caller's object (`self._data = data[:]`, the repair of D65); every other use of `self._data`:
 `_write_new_chunk` measures it, takes a slice as the chunk and REPLACES it by a fresh slice of the rest; `write_done`
 tests its length. -/
 theorem gen_write_data_ownership :
-    AliasVariant.code = ⟨false⟩ ∧
+    AliasVariant.code = ⟨true⟩ ∧
     Gen.C06.writeDataUses = ["new_len = len(self._data)", "data = self._data[:new_len]", "self._data = self._data[new_len:]",
       "len(self._data) > 0"] := by decide
 
@@ -1232,10 +1232,19 @@ theorem copying_constructor_ignores_refills (s : St) (es : List AEv) :
     | refill t d => simp only [arun, refillSt, ↓reduceIte, List.filterMap_cons]; exact ih s
     | mem ev => simp only [arun, List.filterMap_cons, run_cons, ih]
 
-/-- **The code as it is**: a write queued behind another one still refers to the caller's buffer; refilled before it is
-started, the device is sent the NEW content (`9 9` instead of the `7 7` passed to `write`). -/
+/-- **The data of a write are the data at the time of the call**: for the code (copying constructor), whatever the
+caller does to its buffers at whatever point, the run is the run of the `Memory` events alone - so every exactness
+theorem holds with refills anywhere in the history. -/
+theorem refills_are_invisible (s : St) (es : List AEv) :
+    arun AliasVariant.code s es = run Variant.fixed s (es.filterMap fun | .mem e => some e | .refill _ _ => none) := by
+  rw [gen_write_data_ownership.1]
+  exact copying_constructor_ignores_refills s es
+
+/-- **The code before the repair of D65** (`self._data = data`): a write queued behind another one still refers to the
+caller's buffer; refilled before it is started, the device is sent the NEW content (`9 9` instead of the `7 7` passed to
+`write`). -/
 theorem queued_write_aliases_caller_buffer_counterexample :
-    (arun AliasVariant.code St.init [.mem (.write 1 0 0 [1] false false), .mem (.write 2 0 4 [7, 7] false false),
+    (arun ⟨false⟩ St.init [.mem (.write 1 0 0 [1] false false), .mem (.write 2 0 4 [7, 7] false false),
       .refill 2 [9, 9], .mem (.pkt 2 [0, 0, 0, 0, 0, 0])]).2 =
     [.send 2 [0, 0, 0, 0, 0, 1], .send 2 [0, 4, 0, 0, 0, 9, 9], .writeOk 1 0 0] := by decide
 
@@ -1243,5 +1252,10 @@ theorem queued_write_aliases_caller_buffer_counterexample :
 example : (arun AliasVariant.code St.init [.mem (.write 1 0 0 (List.replicate 26 7) false false),
       .refill 1 (List.replicate 26 9), .mem (.pkt 2 [0, 0, 0, 0, 0, 0])]).2.getLast? =
     some (.send 2 [0, 25, 0, 0, 0, 7]) := by decide
+
+/-- the same history with the code: the queued write sends what was passed to `write` -/
+example : (arun AliasVariant.code St.init [.mem (.write 1 0 0 [1] false false), .mem (.write 2 0 4 [7, 7] false false),
+      .refill 2 [9, 9], .mem (.pkt 2 [0, 0, 0, 0, 0, 0])]).2 =
+    [.send 2 [0, 0, 0, 0, 0, 1], .send 2 [0, 4, 0, 0, 0, 7, 7], .writeOk 1 0 0] := by decide
 
 end CfVerif.C06
